@@ -550,6 +550,14 @@ def gen_RegLayouts():
     out.append("def bcaTag : List UInt8 := [" + ", ".join(str(b) for b in bca.get("TAG", b"")) + "]")
     out.append("def fcbTag : List UInt8 := [" + ", ".join(str(b) for b in fcb.get("TAG", b"")) + "]")
     out.append(f"def xmcdTag : Nat := {xhd.get('TAG', 0)}")
+    crc_alg = "?"
+    for node in ast.walk(parse("spsdk/image/xmcd/xmcd.py")):
+        if isinstance(node, ast.FunctionDef) and node.name == "calculate_crc":
+            for sub in ast.walk(node):
+                if isinstance(sub, ast.Attribute) and isinstance(sub.value, ast.Name) and sub.value.id == "CrcAlg":
+                    crc_alg = sub.attr
+    out.append(f"/-- the `CrcAlg` member `XMCD.calculate_crc` uses -/")
+    out.append(f"def xmcdCrcAlg : String := {lean_str(crc_alg)}")
     out.append(f"/-- FCB.SIZE / FCF.SIZE / BCA.SIZE: the minimal length `parse` accepts (FCB, FCF) -/")
     out.append(f"def fcbSize : Nat := {fcb.get('SIZE', 0)}")
     out.append(f"def fcfSize : Nat := {fcf.get('SIZE', 0)}")
